@@ -240,7 +240,7 @@ func TestVerif_NextInCommitWindow(t *testing.T) {
 			if !got {
 				select {
 				case <-wch:
-				case <-time.After(5 * time.Second):
+				case <-time.After(vkit.Patient(5 * time.Second)):
 					r.Violation("missed-wakeup/"+p, idx, map[string]any{"message": fmt.Sprintf("Next (called while the committer was at %s) delivered nothing and the channel it returned is still open 5 s after the commit finished: a consumer waiting on it misses the change", p)})
 					it.Close()
 					continue
